@@ -325,7 +325,22 @@ impl Scenario for Adversary {
             }
             cx.event("call", &(k, addr.0, t, op.code(), good_num));
             cx.note(|| format!("call #{k}: controller({:#06x}, {t:?}).{}   [good-reply bias {good_num}/20]", addr.0, op.name()));
-            let out = ops::apply(&sign, &op);
+            // A third of the page lists are lazy sources that look at the bus each time they are
+            // advanced: if the controller still holds the bus then, such a caller would panic in
+            // the middle of the operation and the call would end with none of the documented outcomes.
+            let out = if matches!(op, Op::SendPages(_)) && self.judge == Judge::Model && cx.chance(1, 3) {
+                cx.probe("page_list_that_looks_at_the_bus");
+                let b2 = bus.clone();
+                let cxp = cx.clone();
+                let probe = move || {
+                    if b2.try_borrow_mut().is_err() {
+                        cxp.fail("C10/bus-held-while-page-list-is-advanced", "the bus was still mutably borrowed when send_pages asked the page list for its next page; a lazy page source that looks at the bus would panic here and the call would end with no documented outcome".to_string());
+                    }
+                };
+                ops::apply_probed(&sign, &op, &probe)
+            } else {
+                ops::apply(&sign, &op)
+            };
             cx.event("outcome", &out);
             cx.note(|| format!("  -> {out:?}"));
             let b = bus.borrow();
